@@ -750,7 +750,7 @@ async fn get_serverids(s: &SharedServerIds) -> ServerIds {
 }
 
 fn to_array(mac: &[u8]) -> Option<[u8; 6]> {
-    mac[0..6].try_into().ok()
+    mac.get(0..6)?.try_into().ok()
 }
 
 /// Verification hooks (built only with `--cfg erbium_verif`): the two private
